@@ -118,7 +118,7 @@ def random_corruption(rnd, fr, cmd, tau):
     L = answer_len(fr, cmd)
     d = rnd.choice([DEFAULT_LATENCY, tau / 2, tau - EPS])
     kind = rnd.choice(["flip", "flip2", "trunc", "extend", "badsum", "foreign", "garbage", "short", "hdr_fix",
-                       "frag_corrupt", "set_fix", "len_fix"])
+                       "frag_corrupt", "set_fix", "len_fix", "frag_clean"])
     fix = ["fixcrc_rtu"] if fr == "rtu" else (["fixsum_aa55"] if fr == "aa55" else None)
     if kind == "flip":
         return kind, {"k": "mut", "ops": [["flip", rnd.randrange(L * 8)]], "d": d}
@@ -168,6 +168,9 @@ def random_corruption(rnd, fr, cmd, tau):
             ops.append(fix)
         return kind, {"k": "mut", "ops": ops, "d": d}
     s = rnd.randint(min(5 if fr == "rtu" else 9, L - 1), L - 1) if L > 1 else 1
+    if kind == "frag_clean":
+        # the conforming answer in two pieces: what is delivered as result must still be the validated frame
+        return kind, {"k": "frag", "s": s, "d1": DEFAULT_LATENCY, "d2": d}
     return kind, {"k": "frag_then", "s": s, "d1": DEFAULT_LATENCY, "d2": d,
                   "what": rnd.choice([{"flip": rnd.randrange(1 << 12)}, {"minus": 1}, {"plus": "00"}])}
 
